@@ -16,6 +16,12 @@
                and every escaping function literal with the captured variables it writes: `no_shared_mutable_escape`
   sq cases   : filter texts with explicit skip and limit parsed once per round, the compiled query run by several read
                transactions released together (first use of every node is concurrent); judged like cr, and run under -race
+  cw cases   : ONE goroutine plays a script of writer events (whole transactions, or begin / operation / commit / rollback in
+               pieces) and reader events (begin, end, observe - incl. cursors walked to their end, then Seek-ed and walked again
+               after other read transactions scanned); the Lean driver runs the MVCC transition system on the script and the
+               implementation's whole output must equal the model's log
+  tables (14): every sync.Pool / Put (`no_pooled_object_outlives_release`), every write of a method to its receiver's state
+               with read-API reachability and shared / per-call receiver type (`read_apis_do_not_write_receiver_state`)
   probe      : one compiled ast.Query shared by goroutines (setPaging stores default skip/limit nodes in it) —
                outside the property's wording, reported in the evidence, never a violation.
 """
@@ -39,7 +45,10 @@ THEOREMS = ["read_sees_one_version", "one_version_per_read_tx", "all_or_nothing_
             "pooled_parser_carries_no_collector",
             "no_append_onto_handed_out_slice", "result_append_table_meaning", "result_append_table_anchors",
             "sorted_scans_keep_their_sort_fields", "sorted_scan_touches_no_earlier_array", "sort_fields_observation",
-            "sorted_shared_answer_is_page_of_the_filtered_rows"]
+            "sorted_shared_answer_is_page_of_the_filtered_rows",
+            "repeated_read_in_one_read_tx_is_stable", "seek_rewalk_is_suffix_of_walk", "rewalk_after_other_scans_sees_own_version",
+            "no_pooled_object_outlives_release", "pool_table_meaning", "pool_table_anchors",
+            "read_apis_do_not_write_receiver_state", "receiver_write_table_meaning", "receiver_write_table_anchors"]
 TABLE_OBLIGATIONS = ["no_unsynchronised_global_writes (Generated/Globals.lean, regenerated from the package-level vars of zitiql/ast/boltz/objectz)",
                      "global_table_anchors (same table)",
                      "no_shared_mutable_escape (same file: escapes of mutable package-level variables + captured writes of escaping function literals)",
@@ -53,7 +62,11 @@ TABLE_OBLIGATIONS = ["no_unsynchronised_global_writes (Generated/Globals.lean, r
                      "listener_discipline_pinned (same file: what zitiql.parse does with the error listeners of the pooled parser and lexer)",
                      "no_append_onto_handed_out_slice (same file: functions returning a stored slice x appends onto the result of a call, directly / through a local / through a slice parameter at the call site)",
                      "result_append_table_anchors (same tables)",
-                     "no_process_wide_config_calls (same file: calls into other modules that set process-wide state, assignments to their package variables)"]
+                     "no_process_wide_config_calls (same file: calls into other modules that set process-wide state, assignments to their package variables)",
+                     "no_pooled_object_outlives_release (same file: every sync.Pool and every Put into one - what is put, whether the putter took it from the pool itself, deferred, escapes; hand-made free lists)",
+                     "pool_table_anchors (same tables)",
+                     "read_apis_do_not_write_receiver_state (same file: writes of methods to fields of their receiver, read API by name or reachable from one, shared long-lived receiver type or per-call, under a lock)",
+                     "receiver_write_table_anchors (same table)"]
 
 RULE = ("mv: seeded random writer histories of 4..17 (quick) / 4..27 (thorough) transactions, each 1-4 operations "
         "(create-or-update of name/rank/roles, delete, SetLinks) over 6 things x 3 groups, 1 in 6 aborted; 2-5 reader "
@@ -90,7 +103,16 @@ RULE = ("mv: seeded random writer histories of 4..17 (quick) / 4..27 (thorough) 
         "never id, explicit skip and limit) so that the slice GetSortFields hands the sorting scanner has every capacity shape of append growth "
         "(spare slots at 3, 5, 6, 7 fields); O<k> (mv, cr): one parsed query with k sort fields, two callers each append their own element to "
         "GetSortFields() - answer = both lengths and whether each still holds its own element. "
-        "race: 9 scenarios x 6 goroutines under the race detector + 2 mv + 4 cr + 2 sq cases")
+        "Round 14: C<k><aa> / D<k><aa><xx> (mv, cr, cw, race cursorwalk): a seekable id cursor (IterateIds / IterateValidIds, 9 filter kinds: rank, "
+        "set symbol, fk set symbol, composite set symbol, external symbol, unique name, nested map element, valid-ids, per-row sub-query) walked to "
+        "its end, then - after a yield, other readers scanning meanwhile - repositioned with Seek and walked again. cw: ONE goroutine plays a script of "
+        "25-65 events (2-3 readers beginning / ending read transactions on raw bbolt transactions, cursor walks, seeks of earlier cursors, plain "
+        "observations, whole write transactions and write transactions in pieces with reader events in between, commits and rollbacks); the whole "
+        "output must equal the log the Lean MVCC model produces for the script, and every read transaction is judged on its tagged version; "
+        "non-trivial = read transaction that observed something on a version other than the final one. race pubsym: IsPublicSymbol / "
+        "ValidateSymbolsArePublic / GetPublicSymbols / GetSymbol / GetSymbolType / NewScanner with element names under the public map symbol tags "
+        "(and the non-public attrs) that no earlier call of the process presented. "
+        "race: 11 scenarios x 6 goroutines under the race detector + 2 mv + 4 cr + 2 sq + 2 cw cases")
 
 MATCHERS = {}   # no open finding (debug-parse-stale-listener was repaired by 956c2a8)
 REVIEWED_APPENDS = {("boltz", "NewBaseStore", "definition.BasePath")}   # = C18/Globals.lean reviewedAppends
@@ -226,6 +248,12 @@ def nontrivial_keys(case, impl):
         return set()
     final = f[0][1:]
     keys = set()
+    if case.startswith("cw "):
+        for tok in f[1:]:
+            p = tok.split(":")
+            if len(p) == 4 and p[1] != final and any(not r.endswith("=-") for r in p[3].split("|")):
+                keys.add((case, p[0], p[1]))
+        return keys
     if case.startswith("cr ") or case.startswith("sq "):
         for tok in f[1:]:
             p = tok.split(":")
@@ -245,7 +273,18 @@ def histogram(lines, impl):
     h = collections.Counter()
     for l, a in zip(lines, impl):
         f = l.split(" ")
-        if f[0] in ("mv", "cr", "sq"):
+        if f[0] == "cw":
+            h["cw events=%d0s" % (len(f) // 10)] += 1
+            for t in f[2:]:
+                h["cw:" + ("reader-begin" if t.startswith("rb") else "reader-end" if t.startswith("re") else "observe" if t.startswith("r") else
+                           "writer-piece" if t.startswith("w") else "tx:commit" if t.startswith("c:") else "tx:abort")] += 1
+            for tok in a.split(" ")[1:]:
+                p = tok.split(":")
+                if len(p) == 4:
+                    h["read-transactions-recorded"] += 1
+                    for r in p[3].split("|"):
+                        h["obs:" + re.sub(r"\d+$", "", r.split("=")[0])] += 1
+        elif f[0] in ("mv", "cr", "sq"):
             h[f[0] + " readers=" + f[1]] += 1
             if f[0] == "cr":
                 h["cr focus=" + f[4]] += 1
@@ -293,7 +332,7 @@ def run(ctx, replay_cases=None):
         lines = replay_cases
     else:
         lines = common.corpus_cases("c18") + [l for l in common.gen_cases(ctx, "c18").split("\n") if l]
-    mv_lines = [l for l in lines if l.startswith("mv ") or l.startswith("cr ") or l.startswith("sq ")]
+    mv_lines = [l for l in lines if l.startswith("mv ") or l.startswith("cr ") or l.startswith("sq ") or l.startswith("cw ")]
     race_lines = [l for l in lines if l.startswith("race ")]
 
     # ---- isolation: reader logs against the model on the tagged version
@@ -311,7 +350,8 @@ def run(ctx, replay_cases=None):
     bad = []
     for i in range(n):
         keys |= nontrivial_keys(mv_lines[i], impl[i])
-        if spec[i] != "ok" or impl[i].split(" ")[0] != model[i]:
+        if spec[i] != "ok" or (impl[i] != model[i] if mv_lines[i].startswith("cw ") else impl[i].split(" ")[0] != model[i]):
+            # a cw case is one goroutine playing a script: the implementation's whole log = the MVCC model's log
             bad.append(i)
     recorded = sum(max(0, len(a.split(" ")) - 1) for a in impl)
     ctx.obligation("correspondence: every recorded read transaction of every reader = store model evaluated on the version it was tagged with; final version = number of committed transactions",
@@ -323,7 +363,7 @@ def run(ctx, replay_cases=None):
     race_out = []
     probe = None
     if race_bin is not None:
-        extra = ([l for l in mv_lines if l.startswith("mv ")][:2] + [l for l in mv_lines if l.startswith("cr ")][:4] + [l for l in mv_lines if l.startswith("sq ")][:2]) if replay_cases is None else []
+        extra = ([l for l in mv_lines if l.startswith("mv ")][:2] + [l for l in mv_lines if l.startswith("cr ")][:4] + [l for l in mv_lines if l.startswith("sq ")][:2] + [l for l in mv_lines if l.startswith("cw ")][:2]) if replay_cases is None else []
         # one process per case; four at a time (each has 4-6 busy goroutines)
         from concurrent.futures import ThreadPoolExecutor
         todo = list(enumerate(race_lines + extra))
@@ -367,9 +407,11 @@ def run(ctx, replay_cases=None):
     })
 
     if bad:
-        i = min(bad, key=lambda j: (len(mv_lines[j]), mv_lines[j]))
+        # a failing cw case is a deterministic single-goroutine script (a concrete reader history): preferred as the replay
+        i = min(bad, key=lambda j: (not mv_lines[j].startswith("cw "), len(mv_lines[j]), mv_lines[j]))
         common.violation(ctx, "property-fails-on-input", mv_lines[i],
                          {"case": mv_lines[i], "impl": impl[i][:3000], "model": model[i], "spec": spec[i],
+                          "reader_history": _reader_history(mv_lines[i], impl[i], model[i], spec[i]),
                           "meaning": "a read transaction's observations are not the model's answers on the committed version it was tagged with (or the tag moved inside the transaction); the spec field names the read transaction <reader>.<n> (s.0 = the serial baseline of a cr case) and the first differing observation",
                           "offending_escapes": getattr(ctx, "escape_offenders", None),
                           "failing_cases": len(bad)})
@@ -387,6 +429,50 @@ def run(ctx, replay_cases=None):
                          no_input=True)
     return common.finish(ctx, trusted_base=trusted,
                          checker_cmd="cd /verif/lean && lake build StorageModel.Properties.C18 && lake env lean <#print axioms of every property theorem> (bin/check C18 does both, after regenerating Generated/Globals.lean from the sources)")
+
+
+def _first_difference(impl, model):
+    """first observation of a cw output that is not the model's: (read transaction, observation, got, model)"""
+    mt = {t.split(":")[0]: t for t in model.split(" ")[1:] if t.count(":") == 3}
+    for t in impl.split(" ")[1:]:
+        p = t.split(":")
+        if len(p) != 4:
+            continue
+        m = mt.get(p[0])
+        if m is None:
+            return {"read_transaction": p[0], "note": "the model has no such read transaction"}
+        mp = m.split(":")
+        if (p[1], p[2]) != (mp[1], mp[2]):
+            return {"read_transaction": p[0], "tags_got": [p[1], p[2]], "tags_model": [mp[1], mp[2]]}
+        for a, b in zip(p[3].split("|"), mp[3].split("|")):
+            if a != b:
+                return {"read_transaction": p[0], "version_tag": p[1], "observation": a.split("=")[0], "got": a.split("=")[-1], "model": b.split("=")[-1]}
+    return None
+
+
+def _reader_history(case, impl, model, spec):
+    """for a cw case: the script up to the failing observation, as a list of steps (the concrete reader history)"""
+    if not case.startswith("cw "):
+        return None
+    m = re.match(r"fail@(\d+)\.(\d+):", spec)
+    steps = []
+    for t in case.split(" ")[2:]:
+        if t.startswith("rb"):
+            steps.append(f"reader {t[2:]} begins a read transaction")
+        elif t.startswith("re"):
+            steps.append(f"reader {t[2:]} ends its read transaction")
+        elif t.startswith("r"):
+            who, q = t[1:].split(":", 1)
+            what = {"C": "opens a cursor and walks it to its end", "D": "seeks its cursor (filter, position) and walks it again"}.get(q[0], "observes")
+            steps.append(f"reader {who} {what}: {q}")
+        elif t in ("wb", "wc", "wa"):
+            steps.append({"wb": "writer begins a transaction", "wc": "writer commits", "wa": "writer rolls back"}[t])
+        elif t.startswith("w:"):
+            steps.append("writer: " + t[2:])
+        else:
+            steps.append(("writer commits " if t[0] == "c" else "writer runs and rolls back ") + t[2:])
+    return {"failing_read_transaction": (m.group(1) + "." + m.group(2)) if m else None, "first_difference": _first_difference(impl, model), "steps": steps,
+            "implementation_log": impl[:1500], "verdict": spec}
 
 
 def _offenders():
@@ -442,6 +528,16 @@ def _escape_offenders():
         missing = [k for k in need if not l.get(k)]
         if missing or (l["recogniser"] == "parser" and l.get("removeBeforePlain")):
             res.append({"listener_discipline_of_zitiql_parse": l["recogniser"], "var": l.get("var"), "missing": missing, "found": l})
+    for w in (facts.get("fieldWrites") or []):
+        if w["api"] == "read" and w["shared"] and not w["underLock"]:
+            res.append({"read_api_writes_state_of_shared_object": w["pkg"] + "." + w["type"] + "." + w["method"], "field": w["field"],
+                        "how": w["how"], "read_api_reached_from": w.get("via") or "(read API by its own name)", "at": w["pos"]})
+    for p in (facts.get("poolPuts") or []):
+        if p["argKind"] != "localFromGet" or p["escapes"] or (not p["deferred"] and p["usedAfter"]):
+            res.append({"pooled_object_released_while_still_referenced": p["pkg"] + "." + p["func"], "pool": p["pool"], "put": p["arg"],
+                        "arg_is": p["argKind"], "deferred": p["deferred"], "escapes": p["escapes"], "at": p["pos"]})
+    for fl in (facts.get("freeLists") or []):
+        res.append({"hand_made_free_list": fl["pkg"] + "." + fl["name"], "type": fl["type"], "written_in": fl["func"]})
     for c in (facts.get("closures") or []):
         ws = [w for w in (c.get("writes") or []) if not w["underLock"]]
         if ws:
